@@ -50,6 +50,7 @@ def gen(rng):
     if op == 'prod' and (n if (axis is None or isinstance(axis, tuple)) else shape[axis]) * nw > 53: return gen(rng)
     if op == 'clip':
         c['clip'] = [rng.randint(lo, 0) , rng.randint(0, hi)]
+        if rng.random() < 0.15 and c['clip'][0] != c['clip'][1]: c['clip'] = c['clip'][::-1]     # (a_min > a_max: NumPy defines the result as minimum(maximum(x, a_min), a_max))
         # how the bounds are given: Python floats, one side only, NumPy integers of a narrow type (integral bounds), fixed-point objects
         c['clip_kind'] = rng.choice(['float', 'float', 'lower_only', 'upper_only', 'npint', 'fxp', 'fxp', 'kw']); c['vpath'] = rng.random() < 0.5
     if op == 'transpose' and rng.random() < 0.6:
@@ -102,9 +103,10 @@ def run_cases(cases, res):
                 z = np.sort(x, axis=axis); exact = np.sort(arr.astype(np.int64), axis=axis).astype(object) * lsb; want_fmt = (s, nw, nf)
             elif op == 'clip':
                 a, b = c['clip']; kind = c.get('clip_kind', 'float')
+                if kind == 'npint' and nf >= 0 and a > b and not (lo_code(s, nw) <= ((b >> nf) << nf)): kind = 'float'     # (crossed bounds: the upper one is the result and must be a code of the format)
                 if kind == 'npint' and nf >= 0:      # integral bounds a NumPy int8 / int16 can hold, given in that type
                     a = (a >> nf) << nf; b = (b >> nf) << nf
-                    if not (-128 <= a >> nf and b >> nf <= 127): kind = 'float'
+                    if not (-128 <= min(a, b) >> nf and max(a, b) >> nf <= 127): kind = 'float'
                 if kind == 'npint' and nf < 0: kind = 'float'
                 ba, bb = float(a * lsb), float(b * lsb)
                 if kind == 'npint': ba, bb = np.int8(a >> nf), np.int8(b >> nf)
